@@ -142,6 +142,10 @@ class ContextDummy(object):
         return False
 
 
+class NeedsOrdering(AnalysisError):
+    """the run sorts symbolic data: decidable only under an ordering hypothesis on the inputs"""
+
+
 class Models(object):
     """Builds the `externals` resolver for absint.Interp."""
 
@@ -1257,11 +1261,28 @@ class Models(object):
                 continue
             r = ndarr._rank_of(v) if isinstance(v, Poly) else None
             if r is None:
-                raise AnalysisError('np.sort / argsort of symbolic data without an ordering hypothesis')
+                return a, self._ranks_by_comparison(a.items())
             keys.append((1, r))
         if len({k[0] for k in keys}) > 1:
-            raise AnalysisError('sort of mixed concrete / symbolic data')
+            return a, self._ranks_by_comparison(a.items())
         return a, keys
+
+    @staticmethod
+    def _ranks_by_comparison(items):
+        """rank keys of symbolic values whose pairwise order is decided (declared signs, ordering hypothesis)"""
+        n = len(items)
+        below = [0] * n
+        for i in range(n):
+            for j in range(i + 1, n):
+                lt = ndarr.s_cmp('<', items[i], items[j])
+                gt = ndarr.s_cmp('>', items[i], items[j])
+                if not isinstance(lt, bool) or not isinstance(gt, bool):
+                    raise NeedsOrdering('np.sort / argsort of symbolic data without an ordering hypothesis')
+                if lt:
+                    below[j] += 1
+                elif gt:
+                    below[i] += 1
+        return [(1, b) for b in below]
 
     def np_argsort(self, a, axis=-1, **kw):
         a, keys = self._ranks(a)
